@@ -415,4 +415,155 @@ Section Facts.
   Theorem iter_new_buffer_independent p buf1 buf2 :
     iter_new OP p buf1 = iter_new OP p buf2.
   Proof. reflexivity. Qed.
+
+  (* soundness without any fuel premise *)
+  Theorem run_sound tf fuel p buf evs :
+    0 <= p_n p <= i32_max ->
+    run OP chk fuel tf p buf = Done evs -> events_spec OP tf p = Done evs.
+  Proof.
+    intros Hn. unfold run, iter_new, events_spec.
+    fold (sp_len OP p) (sp_mdfe OP p).
+    destruct (f_clamp_chk OP (p_td p) (c_zero OP) (sp_len OP p)) as [td|w|] eqn:Ec;
+      cbn [obind]; try discriminate.
+    unfold vec_clear.
+    set (it0 := mkIt (p_start p) (p_dur p) (sp_mdfe OP p) td (sp_len OP p) (p_n p) [] SHead).
+    assert (Hinv : inv it0) by (split; unfold it0; cbn [it_n it_st it_ticks]; [lia | reflexivity]).
+    assert (Hrs : rest_spec tf it0 =
+                  obind (if 0 <? p_n p then span_dists OP tf (sp_len OP p) (sp_mdfe OP p) td else Done [])
+                        (fun dists => Done (sp_events OP (p_start p) (p_dur p) (sp_len OP p) (p_n p) dists))).
+    { unfold rest_spec, it0, dists_if, it_dists, sp_events, e_span, e_lt, e_tail.
+      cbn [it_st it_n it_len it_mdfe it_td it_start it_dur]. rewrite spans_from_0. reflexivity. }
+    rewrite <- Hrs. unfold collect. intros H.
+    destruct (collect_sound tf fuel fuel it0 Hinv) as [E|E]; congruence.
+  Qed.
+
+  (* for a span count in range the stream never panics after new() *)
+  Theorem run_no_panic tf fuel p buf w :
+    0 <= p_n p <= i32_max ->
+    run OP chk fuel tf p buf = Panic w -> iter_new OP p buf = Panic w.
+  Proof.
+    intros Hn. unfold run. destruct (iter_new OP p buf) as [it0|w'|] eqn:En; cbn [obind]; try congruence.
+    intros H. exfalso.
+    assert (Hinv : inv it0).
+    { unfold iter_new in En. destruct (f_clamp_chk _ _ _ _); cbn [obind] in En; try discriminate.
+      injection En as <-. split; cbn [it_n it_st it_ticks]; [lia | reflexivity]. }
+    unfold collect in H.
+    destruct (collect_sound tf fuel fuel it0 Hinv) as [E|E]; [congruence|].
+    rewrite E in H. exact (rest_spec_no_panic _ _ _ H).
+  Qed.
+
+  (* ---------- reading the eager list ---------- *)
+
+  (* what the tick distances are, without fuel *)
+  Definition dists_ok (len mdfe td : F) (ds : list F) : Prop :=
+    ds = map (rsum td td) (seq 0 (length ds)) /\
+    Forall (fun d => f_le OP d len = true /\ f_le OP (f_sub OP len mdfe) d = false) ds /\
+    (if f_lt OP (c_zero OP) td then guard len mdfe (rsum td td (length ds)) = false else ds = []).
+
+  Lemma span_dists_ok tf len mdfe td ds :
+    span_dists OP tf len mdfe td = Done ds -> dists_ok len mdfe td ds.
+  Proof.
+    unfold span_dists, dists_ok. destruct (f_lt OP (c_zero OP) td).
+    - intros H. destruct (tick_dists_char _ _ _ _ _ _ H) as (H1 & H2 & H3).
+      repeat split; auto. eapply Forall_impl; [|exact H2]. cbn beta. intros d Hd. unfold guard in Hd.
+      destruct (f_le OP d len); [|discriminate]. destruct (f_le OP (f_sub OP len mdfe) d); [discriminate|].
+      split; reflexivity.
+    - intros H. injection H as <-. repeat split; constructor.
+  Qed.
+
+  Theorem events_spec_shape tf p evs :
+    events_spec OP tf p = Done evs ->
+    exists td ds,
+      f_clamp_chk OP (p_td p) (c_zero OP) (sp_len OP p) = Done td /\
+      evs = sp_events OP (p_start p) (p_dur p) (sp_len OP p) (p_n p) ds /\
+      (0 < p_n p -> dists_ok (sp_len OP p) (sp_mdfe OP p) td ds) /\
+      (p_n p <= 0 -> ds = []).
+  Proof.
+    unfold events_spec.
+    destruct (f_clamp_chk OP (p_td p) (c_zero OP) (sp_len OP p)) as [td|w|]; cbn [obind]; try discriminate.
+    destruct (0 <? p_n p) eqn:En.
+    - destruct (span_dists OP tf (sp_len OP p) (sp_mdfe OP p) td) as [ds| |] eqn:Ed; cbn [obind]; try discriminate.
+      intros H. injection H as <-. exists td, ds.
+      split; [reflexivity|]. split; [reflexivity|]. split; [|lia].
+      intros _. eapply span_dists_ok; eauto.
+    - cbn [obind]. intros H. injection H as <-. exists td, [].
+      split; [reflexivity|]. split; [reflexivity|]. split; [lia | reflexivity].
+  Qed.
+
+  (* a tick distance that is not > 0 (zero, negative zero, NaN) gives no ticks
+     at all, for any fuel, and every repeat is still there *)
+  Lemma flat_map_single {A B} (f : A -> list B) (g : A -> B) l :
+    (forall x, In x l -> f x = [g x]) -> flat_map f l = map g l.
+  Proof.
+    induction l as [|a l IH]; intros H; [reflexivity|]. cbn [flat_map map].
+    rewrite (H a (or_introl eq_refl)), IH; [reflexivity|]. intros x Hx. apply H. right; exact Hx.
+  Qed.
+
+  Lemma in_spans n x : In x (spans n) <-> 0 <= x < n.
+  Proof.
+    unfold spans. rewrite in_map_iff. split.
+    - intros (k & <- & Hk). apply in_seq in Hk. lia.
+    - intros H. exists (Z.to_nat x). split; [lia|]. apply in_seq. lia.
+  Qed.
+
+  Lemma spans_snoc n : 1 <= n -> spans n = spans (n - 1) ++ [n - 1].
+  Proof.
+    intros H. unfold spans. replace (Z.to_nat n) with (S (Z.to_nat (n - 1))) by lia.
+    rewrite seq_S, map_app. cbn [map Nat.add]. do 2 f_equal. lia.
+  Qed.
+
+  Lemma sp_events_no_ticks start dur len n :
+    sp_events OP start dur len n [] =
+    sp_head OP start :: map (sp_repeat OP start dur) (spans (n - 1))
+            ++ [sp_last_tick OP start dur n; sp_tail OP start dur n].
+  Proof.
+    unfold sp_events. do 2 f_equal.
+    destruct (Z_lt_le_dec n 1) as [Hn|Hn].
+    - unfold spans. replace (Z.to_nat n) with O by lia. replace (Z.to_nat (n - 1)) with O by lia. reflexivity.
+    - rewrite (spans_snoc n Hn), flat_map_app. cbn [flat_map].
+      unfold sp_span at 2. cbn [map]. rewrite Z.ltb_irrefl.
+      destruct (Z.odd (n - 1)); cbn [rev app]; rewrite app_nil_r.
+      all: apply flat_map_single; intros x Hx; apply in_spans in Hx; unfold sp_span; cbn [map rev];
+        assert (E : (x <? n - 1) = true) by lia; rewrite E; destruct (Z.odd x); reflexivity.
+  Qed.
+
+  Theorem events_spec_no_ticks tf p td :
+    f_clamp_chk OP (p_td p) (c_zero OP) (sp_len OP p) = Done td ->
+    f_lt OP (c_zero OP) td = false ->
+    events_spec OP tf p =
+    Done (sp_head OP (p_start p) :: map (sp_repeat OP (p_start p) (p_dur p)) (spans (p_n p - 1))
+            ++ [sp_last_tick OP (p_start p) (p_dur p) (p_n p); sp_tail OP (p_start p) (p_dur p) (p_n p)]).
+  Proof.
+    intros Ec Hlt. unfold events_spec. rewrite Ec. cbn [obind]. unfold span_dists. rewrite Hlt.
+    destruct (0 <? p_n p); cbn [obind]; rewrite sp_events_no_ticks; reflexivity.
+  Qed.
+
+  (* the ticks of one span: kind, span index, span start, time and progress;
+     the progress values are the same list d/len on every span, in travel
+     order on even spans and reversed (chronological = mirrored) on odd spans *)
+  Theorem sp_span_reading start dur len n ds s :
+    exists tk,
+      sp_span OP start dur len n ds s = tk ++ (if s <? n - 1 then [sp_repeat OP start dur s] else []) /\
+      map ev_prog tk = (if Z.odd s then rev (map (fun d => f_div OP d len) ds)
+                        else map (fun d => f_div OP d len) ds) /\
+      Forall (fun e => ev_kind e = KTick /\ ev_span e = s /\ ev_sst e = sp_sst OP start dur s /\
+                       ev_time e = f_add OP (sp_sst OP start dur s)
+                                     (f_mul OP (if Z.odd s then f_sub OP (c_one OP) (ev_prog e)
+                                                else ev_prog e) dur)) tk.
+  Proof.
+    unfold sp_span.
+    assert (Hall : Forall (fun e => ev_kind e = KTick /\ ev_span e = s /\ ev_sst e = sp_sst OP start dur s /\
+                       ev_time e = f_add OP (sp_sst OP start dur s)
+                                     (f_mul OP (if Z.odd s then f_sub OP (c_one OP) (ev_prog e)
+                                                else ev_prog e) dur)) (map (sp_tick OP start dur len s) ds)).
+    { apply Forall_forall. intros e He. apply in_map_iff in He. destruct He as (d & <- & _).
+      unfold sp_tick. cbn [ev_kind ev_span ev_sst ev_time ev_prog]. repeat split; reflexivity. }
+    assert (Hp : map ev_prog (map (sp_tick OP start dur len s) ds) = map (fun d => f_div OP d len) ds).
+    { rewrite map_map. apply map_ext. intros d. reflexivity. }
+    destruct (Z.odd s).
+    - eexists. split; [reflexivity|]. split.
+      + rewrite map_rev, Hp. reflexivity.
+      + apply Forall_rev. exact Hall.
+    - eexists. split; [reflexivity|]. split; assumption.
+  Qed.
 End Facts.
